@@ -185,6 +185,9 @@ fn run(input: RunInput) -> ScenFuture {
                     Ok(pid) => {
                         outcome = format!("dial-ok({})", w.pname(&pid));
                         check_id(&w, Some(pid), adv_id, "dial-returned-identity-the-remote-does-not-hold", &format!("role {role} strategy {strat}"));
+                        if let Some(ph) = h.net.peer(pid) {
+                            check_id(&w, Some(ph.peer_id()), adv_id, "peer-handle-attributed-to-wrong-identity", &format!("role {role} strategy {strat}"));
+                        }
                         if let Ok(resp) = rpc_bounded(&h, pid, Request::new(Bytes::from_static(b"hello")), Duration::from_secs(3)).await {
                             check_id(&w, resp.peer_id().copied(), adv_id, "response-attributed-to-wrong-identity", &format!("role {role} strategy {strat}"));
                         }
